@@ -6,7 +6,7 @@ EVB_TRUST = ['pgsem (harness/go/pgsem): executable stand-in for PostgreSQL execu
 
 PROPS['C31'] = dict(
     target='Props/C31',
-    theorems=['C31_refuted_replay', 'C31_partial', 'C31_partial_from', 'C31_after_commit', 'C31_scenarios'],
+    theorems=['C31_exactly_after_commit', 'C31_exactly_after_commit_from', 'C31_replay_silent', 'C31_after_commit', 'C31_scenarios'],
     ties=[dict(name='TIE-F events', vh='events', model='events', n=dict(quick=120, thorough=6000), kinds=['C31'])],
     rule='grid: write kind (create, revert, set/delete metadata on transaction/account) x context (single on an in-use ledger, first write on an initializing ledger, atomic bulk, '
          'non-atomic bulk, both with and without continueOnFailure, both bulks on an initializing ledger; the write is the middle element of [ok, w, ok]) x outcome (ok, business failure, '
@@ -15,18 +15,18 @@ PROPS['C31'] = dict(
          'database/sql having already rolled the transaction back (sql.Tx.Commit returns sql.ErrTxDone)) + random histories of 1..6 steps '
          '(single writes / bulks of 1..4 elements, replays under idempotency keys, 10% dry runs, random statement/COMMIT/cancellation faults, initializing or in-use ledger); '
          'n = number of random histories; non-trivial = trace with at least one listener call',
-    explanation='PARTIAL (one open finding). PROVED (C31_partial, no bound on histories or bulk sizes): on ANY ledger, initializing or in use, without idempotent replays, every history of single '
-                'writes (any outcome, dry or not, or interrupted by a context cancellation at a statement), atomic / non-atomic bulks, COMMIT failures and context cancellations before any COMMIT yields a trace in which each listener call follows the successful COMMIT of the top-level transaction '
-                'that appended its log (C31_after_commit gives the declarative reading), nothing is published for failed, dry-run, rolled-back or commit-failed writes, and every committed write is '
-                'published exactly once. REFUTED part (S-31b, C31_refuted_replay, known finding): an idempotent replay re-publishes the event of the stored log. The model follows the code after the '
-                'repair of KF-C31-first-write-event-before-commit (LockLedger propagates hasTx); the pre-fix variant of the model survives only as historical Examples (C31_pre_fix_*), not tied to the code. '
+    explanation='FULL. PROVED (C31_exactly_after_commit, no bound on histories or bulk sizes, no side condition): on ANY ledger, initializing or in use, every history of single writes (success, '
+                'business failure, failing statement, dry run, idempotent replay, context cancelled at a statement), atomic / non-atomic bulks (incl. the failing or cancelled prelude of an atomic bulk on an '
+                'initializing ledger), COMMIT failures and context cancellations before any COMMIT yields a trace in which each listener call follows the successful COMMIT of the top-level transaction '
+                'that appended its log (C31_after_commit gives the declarative reading), nothing is published for failed, dry-run, rolled-back, cancelled or commit-failed writes, and every committed write is '
+                'published exactly once; an idempotent replay publishes nothing (C31_replay_silent). The model follows the code after the repairs of KF-C31-first-write-event-before-commit (LockLedger '
+                'propagates hasTx) and KF-C31-replay-republishes (no event when idempotencyHit); the pre-fix variant of the model survives only as historical Examples (C31_pre_fix_*), not tied to the code. '
                 'Tie: the real stack on pgsem with a recording listener; the trace of driver-level BEGIN/COMMIT/ROLLBACK, InsertLog executions and listener calls must equal the trace of the extracted '
                 'model on the same abstract operations (outcome of each write: by construction on the grid, observed on random histories and fault runs); the C31 monitor judges the implementation trace alone.',
     trusted=EVB_TRUST,
     technique='Coq proof (trace judgement as a state machine; induction over histories and bulk element lists; vm_compute refutation witnesses) + fault-injection differential run of the extracted model against the real controller stack',
     level_text='Unbounded theorem about Ledger/Events.v, the store-call-level model of ControllerWithEvents (hasTx/parent/atCommit), the state tracker facade, forgeLog and Bulker.Run: '
-               'events after the outermost commit, none for failed/dry/rolled-back/commit-failed writes, exactly one per committed write -- proved for initializing and in-use ledgers without idempotent replays; '
-               'refuted (witness replayed on the real code, known finding) for idempotent replays.',
+               'events after the outermost commit, none for failed/dry/rolled-back/cancelled/commit-failed writes and for idempotent replays, exactly one per committed write -- proved for all histories on initializing and in-use ledgers.',
     level_note='The write itself is abstract (fails / appends one log / replay); write kinds are uniform in the model (the seven ControllerWithEvents methods have one shape) and distinguished only in the tie. '
                'Parallel bulks are not part of the events tie. InsertSchema is modelled (same shape) but not exercised by the tie.',
 )
